@@ -30,7 +30,7 @@ impl Ctx {
 }
 
 fn hc(enc: &'static encoding_rs::Encoding, mode: Mode, sink: Sink, repl: bool) -> HistCfg {
-    HistCfg { enc, mode, sink, repl, twins: false, latin1: 0, unit: 3, prelen: 0 }
+    HistCfg { enc, mode, sink, repl, twins: false, latin1: 0, lat_src: false, unit: 3, prelen: 0 }
 }
 
 fn whole(cx: &mut Ctx, cfg: &HistCfg, stream: &[u8], q: bool) {
